@@ -90,6 +90,24 @@ pub struct Hop {
     pub unreachable_code: Option<u8>,
     /// Number of option octets in the outer IPv4 header of the answer (multiple of 4).
     pub outer_options: usize,
+    /// Alter one identity field of the quotation (C02 negative half): such an answer is *not* a
+    /// genuine response to the probe.
+    pub alter: Option<Alter>,
+}
+
+#[derive(Debug, Clone, Copy, PartialEq, Eq, Hash)]
+pub enum Alter {
+    DestAddr,
+    /// The port(s) the configuration pins.
+    FixedPort,
+    /// The per-round flow port of Paris/Dublin (not pinned by the configuration).
+    FlowPort,
+    /// Quoted IP protocol / next header.
+    Protocol,
+    /// Dublin/IPv6 magic prefix.
+    Magic,
+    /// ICMP identifier (to another non-zero value).
+    IcmpId,
 }
 
 impl Hop {
@@ -105,6 +123,7 @@ impl Hop {
             zero_quoted_cksum: false,
             unreachable_code: None,
             outer_options: 0,
+            alter: None,
         }
     }
     pub fn kind(mut self, k: HopKind) -> Self {
@@ -563,6 +582,52 @@ impl World {
             q[l4off + 6..l4off + 8].copy_from_slice(&ck.to_be_bytes());
             udp_ck = Some(ck);
         }
+        if let Some(alter) = hop.and_then(|h| h.alter) {
+            let v6 = self.cfg.v6;
+            let flip16 = |q: &mut Vec<u8>, off: usize| {
+                if q.len() >= off + 2 {
+                    q[off] ^= 0x01;
+                }
+            };
+            match alter {
+                Alter::DestAddr => q[if v6 { 39 } else { 19 }] ^= 0x01,
+                Alter::FixedPort => {
+                    if self.cfg.fixed_sport.is_some() {
+                        flip16(&mut q, l4off);
+                    } else {
+                        flip16(&mut q, l4off + 2);
+                    }
+                }
+                Alter::FlowPort => {
+                    if self.cfg.fixed_sport.is_some() {
+                        flip16(&mut q, l4off + 2);
+                    } else {
+                        flip16(&mut q, l4off);
+                    }
+                }
+                Alter::Protocol => {
+                    let off = if v6 { 6 } else { 9 };
+                    q[off] = if q[off] == wire::PROTO_UDP { wire::PROTO_TCP } else { wire::PROTO_UDP };
+                }
+                Alter::Magic => {
+                    // one octet of the 6-octet marker, chosen by the probe's ttl
+                    let k = usize::from(sent.ttl) % 6;
+                    if q.len() > l4off + 8 + k {
+                        q[l4off + 8 + k] ^= 0x20;
+                    }
+                }
+                Alter::IcmpId => {
+                    if q.len() >= l4off + 6 {
+                        let id = u16::from_be_bytes([q[l4off + 4], q[l4off + 5]]);
+                        let mut n = id ^ 0x0100;
+                        if n == 0 {
+                            n = 0x0101;
+                        }
+                        q[l4off + 4..l4off + 6].copy_from_slice(&n.to_be_bytes());
+                    }
+                }
+            }
+        }
         let (qttl, rtos, zero) = hop.map_or((1, None, false), |h| (h.quoted_ttl, h.rewrite_tos, h.zero_quoted_cksum));
         if self.cfg.v6 {
             q[7] = qttl;
@@ -679,7 +744,7 @@ impl World {
                 } else {
                     RespKind::Unreachable(code)
                 };
-                let id = self.push_resp(idx, from, kind, bytes, true, ck, hop.ext.as_ref().map(|e| e.0.clone()));
+                let id = self.push_resp(idx, from, kind, bytes, hop.alter.is_none(), ck, hop.ext.as_ref().map(|e| e.0.clone()));
                 self.pending.push(id);
             }
             if self.cfg.proto == Proto::Tcp {
